@@ -1013,6 +1013,22 @@ fn admin_driver(out: &str, seed: u64, n: u64) {
                         r.act(json!({"op":"tick","dt": *pick(&mut rng, &[3600i64, 86399, 86400, 90000])}));
                     }
                 }
+                // winding a bank down: token-less repayments allowed, declared complete by the risk admin, then
+                // depositors' positions purged (only deposits, only in the flagged bank, only by the risk admin)
+                if rng.gen_bool(0.5) {
+                    r.act(json!({"op":"purge","acct":"A2","bank":"B2"}));                       // not flagged yet
+                    r.act(json!({"op":"tokenless_complete","bank":"B2"}));                      // no effect unless allowed
+                    r.act(json!({"op":"purge","acct":"A2","bank":"B2"}));
+                    r.act(json!({"op":"configure_bank","bank":"B2","cfg":{"tokenless_allowed":true}}));
+                    r.act(json!({"op":"tokenless_complete","bank":"B2","signer": *pick(&mut rng, &["riskadmin", "riskadmin", "admin", "stranger"])}));
+                    r.act(json!({"op":"tokenless_complete","bank":"B2"}));
+                    r.act(json!({"op":"purge","acct":"A3","bank":"B1"}));                       // a debt position, bank not flagged
+                    r.act(json!({"op":"purge","acct":"A2","bank":"B2","signer":"stranger"}));
+                    r.act(json!({"op":"purge","acct":"A2","bank":"B2"}));
+                    r.act(json!({"op":"purge","acct":"A2","bank":"B2"}));                       // already gone
+                    r.act(json!({"op":"pulse_health","acct":"A2"}));
+                    r.act(json!({"op":"withdraw","acct":"A3","bank":"B2","amount":1}));
+                }
             }
         }
     }
